@@ -64,6 +64,18 @@ impl Profile {
     stall_max_us: 3000,
     p_weak_fail: SCALE / 4,
   };
+  /// Profile for tiny scenarios (a few dozen steps per thread): the change points must fall
+  /// inside the handful of steps the threads really execute, and the stall only has to outlast
+  /// another thread's short critical section.
+  pub fn pick_tiny(rng: &mut Rng) -> Profile {
+    let mut p = if rng.chance(1, 2) { Profile::LIGHT } else { Profile::HEAVY };
+    p.p_sleep /= 4;
+    p.horizon = [10, 20, 40, 80][rng.below(4) as usize];
+    p.change_points = 1 + rng.below(3) as u32;
+    p.stall_min_us = 50;
+    p.stall_max_us = [300, 800, 2000][rng.below(3) as usize];
+    p
+  }
   /// Picks a profile variant for an execution.
   pub fn pick(rng: &mut Rng) -> Profile {
     match rng.below(10) {
@@ -168,6 +180,7 @@ pub fn enter(seed: u64, exec: u64, slot: u64) -> Guard {
     let mut t = t.borrow_mut();
     arm(&mut t, crate::rng::splitmix(seed ^ exec.rotate_left(17) ^ slot.rotate_left(43)));
   });
+  crate::stuck::register_worker();
   Guard(())
 }
 
@@ -179,6 +192,7 @@ impl Drop for Guard {
 
 /// Deactivates chaos for the current thread and flushes its counters.
 pub fn leave() {
+  crate::stuck::deregister_worker();
   let _ = TL.try_with(|t| {
     if let Ok(mut t) = t.try_borrow_mut() {
       t.active = false;
